@@ -450,6 +450,13 @@ def correspond(run, corr):
                 if len(corr.outside_samples) < 5:
                     corr.outside_samples.append({"request": l[:300], "impl": a[:200], "model": b})
                 continue
+            if a != b and " ".join(t for t in a.split() if t != "o") == " ".join(t for t in b.split() if t != "o"):
+                # only the return value of sercomm_drv_rx_char() differs (token `o` = a call returned 0): what is delivered,
+                # pulled and in which order is the same - the property does not speak about that return value
+                corr.outside += 1
+                if len(corr.outside_samples) < 5:
+                    corr.outside_samples.append({"request": l[:300], "impl": a[:200], "model": b[:200]})
+                continue
             if a != b and len(corr.disagreements) < 50:
                 i = next((k for k in range(min(len(a), len(b))) if a[k] != b[k]), min(len(a), len(b)))
                 corr.disagreements.append({"request": l[:1500], "first_difference_at": i,
